@@ -35,6 +35,28 @@ def solveQ (a : Array (Array ℚ)) (b : Array ℚ) : Option (Array ℚ) := Id.ru
           m := m.set! r (Array.ofFn (n := n + 1) fun j => rr[j]! - f * rowc[j]!)
   return some (m.map fun row => row[n]!)
 
+/-- PACE scores of the rows of `Z`: `Y Σ = Z` solved exactly row by row (certificate re-checked),
+then `scoresPace`. -/
+def paceAnswer (lm : List ℚ) (C : List (List ℚ)) (σ2 : ℚ) (Z : List (List ℚ)) (Phi : List (List ℚ)) : String :=
+  let m := C.length
+  let K := lm.length
+  if C.any (·.length ≠ m) || Z.any (·.length ≠ m) || Phi.length ≠ K || Phi.any (·.length ≠ m) then "error:shape" else
+  let Ca := arr2 C
+  let Sg := tabA2 m m (paceSigma (rd2 Ca) σ2)
+  let SgT := tabA2 m m fun i j => rd2 Sg j i
+  let Pa := arr2 Phi
+  let la := lm.toArray
+  let rows := Z.map fun z =>
+    match solveQ SgT z.toArray with
+    | none => none
+    | some y =>
+      let ok := (List.range m).all fun j =>
+        ((List.range m).foldl (fun acc i => acc + rd y i * rd2 Sg i j) 0) == rd z.toArray j
+      if ok then some y else none
+  if rows.any (·.isNone) then "error:singular" else
+  let Y := (rows.map fun o => (o.getD #[])).toArray
+  showMat (toMat Z.length K (scoresPace m (rd la) (rd2 Y) (rd2 Pa)))
+
 def bool? (s : String) : Option Bool := if s = "1" then some true else if s = "0" then some false else none
 
 def answer (l : String) : String :=
@@ -143,29 +165,23 @@ def answer (l : String) : String :=
       showMat (toMat N m (inverseTransform K (rd ma) r (rd2 Sa) (rd2 Pa)))
     | _, _, _, _ => "bad"
   | ["pace", lam, cov, sig, z, phi] =>
-    -- Y Σ = Z solved row by row (Σ symmetric as data; solved as Σᵀ yᵀ = zᵀ), certificate re-checked
     match parseVec? lam, parseMat? cov, parseRat? sig, parseMat? z, parseMat? phi with
-    | some lm, some C, some σ2, some Z, some Phi =>
-      let m := C.length
-      let K := lm.length
-      if C.any (·.length ≠ m) || Z.any (·.length ≠ m) || Phi.length ≠ K || Phi.any (·.length ≠ m) then "error:shape" else
-      let Ca := arr2 C
-      let Sg := tabA2 m m (paceSigma (rd2 Ca) σ2)
-      let SgT := tabA2 m m fun i j => rd2 Sg j i
-      let Pa := arr2 Phi
-      let la := lm.toArray
-      let rows := Z.map fun z =>
-        match solveQ SgT z.toArray with
-        | none => none
-        | some y =>
-          -- certificate: (y Σ)_j = z_j for every j
-          let ok := (List.range m).all fun j =>
-            ((List.range m).foldl (fun acc i => acc + rd y i * rd2 Sg i j) 0) == rd z.toArray j
-          if ok then some y else none
-      if rows.any (·.isNone) then "error:singular" else
-      let Y := (rows.map fun o => (o.getD #[])).toArray
-      showMat (toMat Z.length K (scoresPace m (rd la) (rd2 Y) (rd2 Pa)))
+    | some lm, some C, some σ2, some Z, some Phi => paceAnswer lm C σ2 Z Phi
     | _, _, _, _, _ => "bad"
+  | ["pacez", norm, which, mean, weight, x, lam, cov, sig, phi] =>
+    -- PACE of `transformImpl` / `transformSpec` of the data (normalisation inside the model, `r = √weight`)
+    match bool? norm, parseVec? mean, parseRat? weight, parseMat? x, parseVec? lam, parseMat? cov, parseRat? sig, parseMat? phi with
+    | some nz, some mu, some wt, some X, some lm, some C, some σ2, some Phi =>
+      let m := mu.length
+      if X.any (·.length ≠ m) then "error:shape" else
+      if wt ≤ 0 then "error:weight" else
+      let ma := mu.toArray
+      let Xa := arr2 X
+      let r := sqrtQ wt
+      let Z := if which = "spec" then toMat X.length m (transformSpec nz (rd ma) r (rd2 Xa))
+               else toMat X.length m (transformImpl nz (rd ma) r (rd2 Xa))
+      paceAnswer lm C σ2 Z Phi
+    | _, _, _, _, _, _, _, _ => "bad"
   | _ => "bad-op"
 
 def main : IO Unit := serve answer
